@@ -90,6 +90,28 @@ def mutations(rng, token, n_flips):
             ("sig-doubled", b".".join([h, p, s + s])), ("no-sig-segment", b".".join([h, p])), ("extra-segment", token + b".AAAA"),
             ("payload-dot", b".".join([h, p[:2] + b"." + p[2:], s])), ("header-padded", b".".join([h + b"=", p, s])),
             ("whitespace", b".".join([h, p + b"\n", s])), ("empty", b""), ("dots", b"..")]
+    # the same signature VALUE written another way (the octets differ, the number or pair of numbers does not): zero octets in front
+    # of the whole or of each half, an ASN.1 DER wrapping of (r, s), trailing zero octets -- none of them is the serialization that was signed
+    raw = b64d(s)
+    if raw:
+        def seg(b):
+            return base64.urlsafe_b64encode(b).rstrip(b"=")
+        half = len(raw) // 2
+        variants = [("sig-reencoded:leading-zero", b"\x00" + raw), ("sig-reencoded:trailing-zero", raw + b"\x00"), ("sig-reencoded:two-leading-zeros", b"\x00\x00" + raw)]
+        if len(raw) % 2 == 0:
+            r_, s_ = raw[:half], raw[half:]
+            variants += [("sig-reencoded:halves-zero-padded-1", b"\x00" + r_ + b"\x00" + s_), ("sig-reencoded:halves-zero-padded-2", b"\x00\x00" + r_ + b"\x00\x00" + s_),
+                         ("sig-reencoded:halves-zero-padded-8", b"\x00" * 8 + r_ + b"\x00" * 8 + s_), ("sig-reencoded:halves-swapped", s_ + r_)]
+            try:
+                from cryptography.hazmat.primitives.asymmetric.utils import encode_dss_signature
+                variants.append(("sig-reencoded:der", encode_dss_signature(int.from_bytes(r_, "big"), int.from_bytes(s_, "big"))))
+            except Exception:  # noqa: BLE001
+                pass
+            if r_[:1] == b"\x00" and s_[:1] == b"\x00":
+                variants.append(("sig-reencoded:halves-stripped", r_[1:] + s_[1:]))
+        if raw[:1] == b"\x00":
+            variants.append(("sig-reencoded:leading-zero-stripped", raw[1:]))
+        out += [(lab, b".".join([h, p, seg(v)])) for lab, v in variants]
     return out
 
 
